@@ -366,6 +366,9 @@ def oracle_blocking(sc, res):
 
 
 def run_shard(campaign, shard, nshards, seed, tier):
+    if campaign == 'api':
+        import apiuse
+        return apiuse.run_api('C12', shard, nshards, seed, tier)
     part = Part()
     rng = random.Random('%s/%s/%s' % (seed, campaign, shard))
     quick = tier != 'thorough'
@@ -450,4 +453,6 @@ def run_shard(campaign, shard, nshards, seed, tier):
 def run(ctx):
     run_sharded(ctx, 'C12', 'logic')
     run_sharded(ctx, 'C12', 'blocking', nshards=4)
-    return RULE, ASSUME
+    run_sharded(ctx, 'C12', 'api', nshards=2)
+    import apiuse
+    return RULE + apiuse.rule_text('C12'), ASSUME
